@@ -267,8 +267,11 @@ func (P *Program) phiFormula(phi *ssa.Phi, depth int) *formula {
 		}
 		// value on the A->J edge must be the constant the branch implies, or the condition itself
 		okVal := ev == ifi.Cond
+		inverted := false
 		if c, isC := ev.(*ssa.Const); isC && c.Value != nil {
-			okVal = (c.Value.ExactString() == "true") == trueEdge
+			okVal = true
+			// `!x && y` is built as `if x { false } else { y }`: the constant is the opposite of the branch taken
+			inverted = (c.Value.ExactString() == "true") != trueEdge
 		}
 		if !okVal {
 			continue
@@ -278,6 +281,13 @@ func (P *Program) phiFormula(phi *ssa.Phi, depth int) *formula {
 		}
 		cf := P.condFormula(ifi.Cond, depth+1)
 		wf := P.condFormula(w, depth+1)
+		if inverted {
+			ncf := &formula{op: "not", sub: []*formula{cf}}
+			if trueEdge { // cond -> false; !cond -> w
+				return &formula{op: "and", sub: []*formula{ncf, wf}}
+			}
+			return &formula{op: "or", sub: []*formula{ncf, wf}} // !cond -> true; cond -> w
+		}
 		if trueEdge {
 			return &formula{op: "or", sub: []*formula{cf, wf}}
 		}
